@@ -8,6 +8,7 @@
 #include <sys/mman.h>
 
 extern __thread void *lp_ABTI_local;
+extern void wb_asan_ctxswitch(const void *p_abandoned, const void *p_new);
 
 sim_globals G;
 sim_shared *SH;
@@ -634,6 +635,7 @@ void abtv_ctxswitch(const void *p_old, const void *p_new)
     if (p_old && me->cur_ctx && me->cur_ctx != p_old)
         sim_fail("M-owner:old-mismatch", "sim thread %d leaves context %p but was running %p", G.cur, p_old, me->cur_ctx);
     const void *rel = p_old ? p_old : me->cur_ctx;
+    wb_asan_ctxswitch(p_old ? NULL : me->cur_ctx, p_new);
     if (rel) {
         int h = own_find(rel);
         if (own_ctx[h])
